@@ -637,26 +637,26 @@ impl Seq {
         }
     }
 
-    fn step(&mut self) {
+    fn gen_op(&mut self) -> Op {
         let f = &self.fl;
         // (weight, op)
         let table: [(u64, u8); 16] = [
-            (15, 0),                                              // write_frame
-            (15, 1),                                              // write_frame_with_file_id
-            (12, 2),                                              // write_frames_batch
-            (if f.nosync { 9 } else { 0 }, 3),                    // write_frames_batch_no_sync
-            (if f.undo && !f.single { 6 } else { 0 }, 4),         // write_undo_frame
-            (7, 5),                                               // flush_wal_for_table
-            (if f.rotate { 6 } else { 0 }, 6),                    // rotate_segment
-            (if f.trunc { 5 } else { 0 }, 7),                     // truncate
-            (if f.trunc && f.single { 3 } else { 0 }, 8),         // checkpoint(storage)
-            (if f.dbckpt { 4 } else { 0 }, 9),                    // rotate + replay closed + remove closed
-            (if f.reopen { 9 } else { 0 }, 10),                   // drop + Wal::open
-            (if f.nosync { 5 } else { 0 }, 11),                   // set_sync_mode
-            (if f.nosync { 2 } else { 0 }, 12),                   // sync
-            (4, 13),                                              // observe
-            (if f.torn { 4 } else { 0 }, 14),                     // torn tail + Wal::open
-            (0, 15),
+            (15, 0),                                                  // write_frame
+            (15, 1),                                                  // write_frame_with_file_id
+            (12, 2),                                                  // write_frames_batch
+            (if f.nosync { 9 } else { 0 }, 3),                        // write_frames_batch_no_sync
+            (if f.undo && !f.single { 6 } else { 0 }, 4),             // write_undo_frame
+            (7, 5),                                                   // flush_wal_for_table
+            (if f.rotate { 6 } else { 0 }, 6),                        // rotate_segment
+            (if f.trunc { 5 } else { 0 }, 7),                         // truncate
+            (if f.trunc && f.single { 3 } else { 0 }, 8),             // sync + checkpoint(storage)
+            (if f.dbckpt { 4 } else { 0 }, 9),                        // rotate + replay closed + remove closed
+            (if f.reopen { 9 } else { 0 }, 10),                       // drop + Wal::open
+            (if f.nosync { 5 } else { 0 }, 11),                       // set_sync_mode
+            (if f.nosync { 2 } else { 0 }, 12),                       // sync
+            (3, 13),                                                  // observe
+            (if f.torn { 4 } else { 0 }, 14),                         // torn tail + Wal::open
+            (if f.trunc && f.single && f.nosync { 1 } else { 0 }, 15), // checkpoint(storage) with frames still buffered
         ];
         let tot: u64 = table.iter().map(|x| x.0).sum();
         let mut r = self.rng.below(tot);
@@ -673,62 +673,103 @@ impl Seq {
                 let fid = if op == 0 { 0 } else { self.pick_fid() };
                 let page = self.rng.below(NPAGES as u64) as u32;
                 let dbs = self.pick_dbs(page);
-                let img = self.new_img();
-                let data = image(img);
-                self.log.push(format!("{}(file={},page={},db_size={}) img={:#x}", API_NAMES[op as usize], fid, page, dbs, img));
-                let ok = if op == 0 { self.api("write_frame", |w| w.write_frame(page, dbs, &data)) } else { self.api("write_frame_with_file_id", |w| w.write_frame_with_file_id(page, dbs, &data, fid)) };
-                if ok.is_some() {
-                    self.sh.write(fid, page, dbs, img, op);
-                }
+                Op::Write { api: op, fid, page, dbs }
             }
             2 | 3 => {
                 let n = self.rng.usize(1, 4);
-                let mut fr = vec![];
+                let mut frames = vec![];
                 for _ in 0..n {
                     let fid = self.pick_fid();
                     let page = self.rng.below(NPAGES as u64) as u32;
                     let dbs = self.pick_dbs(page);
-                    let img = self.new_img();
-                    fr.push((page, dbs, image(img), fid, img));
+                    frames.push((fid, page, dbs));
                 }
-                self.log.push(format!("{}({:?})", API_NAMES[op as usize], fr.iter().map(|x| format!("file={},page={},img={:#x}", x.3, x.0, x.4)).collect::<Vec<_>>()));
-                let ok = if op == 2 {
-                    self.api("write_frames_batch", |w| w.write_frames_batch(fr.iter().map(|x| (x.0, x.1, &x.2[..], x.3))))
-                } else {
-                    self.api("write_frames_batch_no_sync", |w| w.write_frames_batch_no_sync(fr.iter().map(|x| (x.0, x.1, &x.2[..], x.3))))
-                };
-                if ok.is_some() {
-                    for x in &fr {
-                        self.sh.write(x.3, x.0, x.1, x.4, op);
-                    }
-                }
+                Op::Batch { nosync: op == 3, frames }
             }
             4 => {
-                let table_id = self.rng.below(NFILES) as u32;
-                let txn = 1 + self.rng.below(5) as u32;
                 let page = self.rng.below(NPAGES as u64) as u32;
-                let dbs = self.pick_dbs(page);
-                let img = self.new_img();
-                let data = image(img);
-                self.log.push(format!("write_undo_frame(table={},txn={},page={}) img={:#x}", table_id, txn, page, img));
-                if self.api("write_undo_frame", |w| w.write_undo_frame(table_id, txn, page, dbs, &data)).is_some() {
-                    self.sh.write(UNDO_TAG | ((table_id as u64) << 32) | txn as u64, page, dbs, img, 4);
-                }
+                Op::Undo { table: self.rng.below(NFILES) as u32, txn: 1 + self.rng.below(5) as u32, page, dbs: self.pick_dbs(page) }
             }
             5 => {
-                // the production write path: dirty pages of one table drained in ascending order
                 let fid = self.pick_fid();
                 let n = self.rng.usize(1, 3);
                 let mut pages = BTreeSet::new();
                 for _ in 0..n {
                     pages.insert(self.rng.below(NPAGES as u64) as u32);
                 }
+                Op::Flush { fid, pages: pages.into_iter().collect() }
+            }
+            6 => Op::Rotate,
+            7 => Op::Truncate,
+            8 => Op::Checkpoint { sync_first: true },
+            9 => Op::DbCkpt,
+            10 => Op::Reopen,
+            11 => Op::Mode(self.rng.below(3) as u8),
+            12 => Op::Sync,
+            13 => Op::Observe,
+            14 => {
+                let kind = self.rng.below(10);
+                if kind < 6 {
+                    Op::Torn(Torn::Cut { back: self.rng.usize(1, 2 * FRAME) })
+                } else if kind < 9 {
+                    let len = *self.rng.pick(&[1usize, 31, 32, 33, 5000, FRAME - 1, FRAME, FRAME + 100]);
+                    Op::Torn(Torn::Garbage { len, seed: self.rng.next() })
+                } else {
+                    Op::Torn(Torn::Zeros { len: *self.rng.pick(&[100usize, FRAME, 2 * FRAME + 5]) })
+                }
+            }
+            _ => Op::Checkpoint { sync_first: false },
+        }
+    }
+
+    fn exec(&mut self, op: Op) {
+        match op {
+            Op::Write { api, fid, page, dbs } => {
+                let fid = if api == 0 { 0 } else { fid };
+                let img = self.new_img();
+                let data = image(img);
+                self.log.push(format!("{}(file={},page={},db_size={}) img={:#x}", API_NAMES[api as usize], fid, page, dbs, img));
+                let ok = if api == 0 { self.api("write_frame", |w| w.write_frame(page, dbs, &data)) } else { self.api("write_frame_with_file_id", |w| w.write_frame_with_file_id(page, dbs, &data, fid)) };
+                if ok.is_some() {
+                    self.sh.write(fid, page, dbs, img, api);
+                }
+            }
+            Op::Batch { nosync, frames } => {
+                let api = if nosync { 3 } else { 2 };
+                let mut fr = vec![];
+                for (fid, page, dbs) in frames {
+                    let img = self.new_img();
+                    fr.push((page, dbs, image(img), fid, img));
+                }
+                self.log.push(format!("{}({:?})", API_NAMES[api as usize], fr.iter().map(|x| format!("file={},page={},img={:#x}", x.3, x.0, x.4)).collect::<Vec<_>>()));
+                let ok = if !nosync {
+                    self.api("write_frames_batch", |w| w.write_frames_batch(fr.iter().map(|x| (x.0, x.1, &x.2[..], x.3))))
+                } else {
+                    self.api("write_frames_batch_no_sync", |w| w.write_frames_batch_no_sync(fr.iter().map(|x| (x.0, x.1, &x.2[..], x.3))))
+                };
+                if ok.is_some() {
+                    for x in &fr {
+                        self.sh.write(x.3, x.0, x.1, x.4, api);
+                    }
+                }
+            }
+            Op::Undo { table, txn, page, dbs } => {
+                let img = self.new_img();
+                let data = image(img);
+                self.log.push(format!("write_undo_frame(table={},txn={},page={}) img={:#x}", table, txn, page, img));
+                if self.api("write_undo_frame", |w| w.write_undo_frame(table, txn, page, dbs, &data)).is_some() {
+                    self.sh.write(UNDO_TAG | ((table as u64) << 32) | txn as u64, page, dbs, img, 4);
+                }
+            }
+            Op::Flush { fid, pages } => {
+                // the production write path: dirty pages of one table drained in ascending page order
                 if self.src.is_none() {
                     match MmapStorage::create(self.scr.join("src.tbd"), NPAGES) {
                         Ok(s) => self.src = Some(s),
                         Err(_) => return,
                     }
                 }
+                let pages: BTreeSet<u32> = pages.into_iter().collect();
                 let mut imgs = vec![];
                 for p in &pages {
                     let img = self.new_img();
@@ -748,19 +789,19 @@ impl Seq {
                     }
                 }
             }
-            6 => {
+            Op::Rotate => {
                 self.log.push("rotate_segment".into());
                 if self.api("rotate_segment", |w| w.rotate_segment()).is_some() {
                     self.sh.rotate();
                 }
             }
-            7 => {
+            Op::Truncate => {
                 self.log.push("truncate".into());
                 if self.api("truncate", |w| w.truncate()).is_some() {
                     self.sh.truncate();
                 }
             }
-            8 => {
+            Op::Checkpoint { sync_first: true } => {
                 self.log.push("sync + checkpoint(storage)".into());
                 let au = match self.audit_now() {
                     Some(a) => a,
@@ -781,7 +822,51 @@ impl Seq {
                     }
                 }
             }
-            9 => {
+            Op::Checkpoint { sync_first: false } => {
+                // frames may still sit in the writer's buffer (non-Full sync mode / no_sync batch).
+                // Demanded: no acknowledged frame vanishes - after the checkpoint every page holds its
+                // last image either in the storage or through a later recovery of what the log kept.
+                self.log.push("checkpoint(storage) without a preceding sync".into());
+                let exp = expect_of(self.sh.frames(), None);
+                let ip = self.init_pages;
+                let wal = self.wal.take().unwrap();
+                let r1 = observe(&mut self.rec, ip, |st| wal.checkpoint(st));
+                let r2 = observe(&mut self.rec, ip, |st| {
+                    wal.sync()?;
+                    wal.recover(st)
+                });
+                self.wal = Some(wal);
+                self.res.evals += 1;
+                self.compared += exp.count as u64;
+                match (r1, r2) {
+                    (Ok(o1), Ok(o2)) => {
+                        let mut lost = vec![];
+                        for (p, img) in &exp.pages {
+                            let a = o1.pages.get(*p as usize).copied();
+                            let b = o2.pages.get(*p as usize).copied();
+                            let fin = match b {
+                                Some(PObs::Untouched) | None => a,
+                                x => x,
+                            };
+                            if fin != Some(PObs::Img(*img)) {
+                                lost.push(json!({"page": p, "expected": format!("image {:#x}", img), "storage_after_checkpoint": a.map(pobs_str), "recovered_from_log_afterwards": b.map(pobs_str)}));
+                            }
+                        }
+                        if !lost.is_empty() {
+                            self.fail("page_last_valid_image", "C03/page_last_valid_image/checkpoint_drops_buffered_frames".into(), json!({"lost": lost, "frames_applied_by_checkpoint": o1.count, "frames_in_shadow": exp.count}));
+                        } else if o1.count == exp.count && o2.count == 0 {
+                            self.sh.truncate();
+                        } else {
+                            // nothing lost, but the log kept frames the shadow cannot place: stop here
+                            self.res.c("checkpoint_unflushed_frames_survived_in_log", 1);
+                            self.stop = true;
+                        }
+                    }
+                    (Err((true, p)), _) | (_, Err((true, p))) => self.fail("no_panic", format!("C03/no_panic/checkpoint@{}", panic_site(&p)), json!({"panic": p})),
+                    (Err((false, e)), _) | (_, Err((false, e))) => self.fail("recover_ok", "C03/recover_ok/checkpoint".into(), json!({"error": e})),
+                }
+            }
+            Op::DbCkpt => {
                 // what SharedDatabase::checkpoint does
                 self.log.push("rotate_segment + replay_segments_to_storage(closed) + remove_closed_segments".into());
                 if self.api("rotate_segment", |w| w.rotate_segment()).is_none() {
@@ -813,7 +898,8 @@ impl Seq {
                 for f in files {
                     let frs: Vec<&Fr> = nums.iter().filter_map(|k| self.sh.segs.get(k)).flat_map(|v| v.iter()).collect();
                     let exp = expect_of(frs.into_iter(), Some(f));
-                    let r = observe(&mut self.rec, self.init_pages, |st| Wal::replay_segments_to_storage(&closed, st, f));
+                    let ip = self.init_pages;
+                    let r = observe(&mut self.rec, ip, |st| Wal::replay_segments_to_storage(&closed, st, f));
                     self.res.evals += 1;
                     self.compared += exp.count as u64;
                     if !self.judge("replay_segments_to_storage", Some(f), &exp, r, &au) {
@@ -829,31 +915,30 @@ impl Seq {
                     self.sh.closed.clear();
                 }
             }
-            10 => {
+            Op::Reopen => {
                 self.log.push("drop + Wal::open".into());
                 self.wal = None;
                 if self.open_wal(false) {
                     self.sh.reopen();
                 }
             }
-            11 => {
-                let m = self.rng.below(3);
-                let mode = [SyncMode::Full, SyncMode::Normal, SyncMode::Off][m as usize];
+            Op::Mode(m) => {
+                let mode = [SyncMode::Full, SyncMode::Normal, SyncMode::Off][m as usize % 3];
                 self.log.push(format!("set_sync_mode({:?})", mode));
                 self.api("set_sync_mode", |w| {
                     w.set_sync_mode(mode);
                     Ok(())
                 });
             }
-            12 => {
+            Op::Sync => {
                 self.log.push("sync".into());
                 self.api("sync", |w| w.sync());
             }
-            13 => {
+            Op::Observe => {
                 self.log.push("observe".into());
                 self.check_state(false);
             }
-            14 => {
+            Op::Torn(t) => {
                 // crash leaving a torn tail on the current segment, then reopen
                 self.wal = None;
                 let path = self.dir.join(format!("wal.{:06}", self.sh.cur));
@@ -862,52 +947,53 @@ impl Seq {
                 let au = audit(&self.dir, &self.sh, &self.crc);
                 if !au.ok {
                     // the log is already not what was written; let the next observation report it
-                    self.log.push("drop + Wal::open (torn-tail step skipped)".into());
+                    self.log.push("drop + Wal::open (crash step skipped: log bytes already differ from what was written)".into());
                     if self.open_wal(false) {
                         self.sh.reopen();
                     }
                     self.check_state(false);
                     return;
                 }
-                let kind = self.rng.below(10);
-                if kind < 6 && n > 0 {
-                    let lo = len.saturating_sub(2 * FRAME);
-                    let at = self.rng.usize(lo, len.saturating_sub(1));
-                    let keep = at / FRAME;
-                    self.log.push(format!("crash: segment {} cut from {} to {} bytes ({} whole frames left) + Wal::open", self.sh.cur, len, at, keep));
-                    let f = std::fs::OpenOptions::new().write(true).open(&path).unwrap();
-                    f.set_len(at as u64).unwrap();
-                    let cur = self.sh.cur;
-                    let gone: Vec<Fr> = self.sh.segs.get_mut(&cur).unwrap().drain(keep..).collect();
-                    for g in gone {
-                        self.sh.discarded.insert(g.img);
+                let cur = self.sh.cur;
+                match t {
+                    Torn::Cut { back } if n > 0 => {
+                        let at = len.saturating_sub(back.max(1));
+                        let keep = (at / FRAME).min(n);
+                        self.log.push(format!("crash: segment {} cut from {} to {} bytes ({} whole frames left) + Wal::open", cur, len, at, keep));
+                        let f = std::fs::OpenOptions::new().write(true).open(&path).unwrap();
+                        f.set_len(at as u64).unwrap();
+                        let gone: Vec<Fr> = self.sh.segs.get_mut(&cur).unwrap().drain(keep..).collect();
+                        for g in gone {
+                            self.sh.discarded.insert(g.img);
+                        }
+                        if at % FRAME != 0 {
+                            self.sh.garbage_tail_injected = true;
+                            self.sh.slack.insert(cur);
+                        }
                     }
-                    if at % FRAME != 0 {
+                    Torn::Cut { .. } => {
+                        self.log.push("crash (nothing to cut) + Wal::open".into());
+                    }
+                    Torn::Garbage { len: l, seed } => {
+                        let g = Rng::new(seed).bytes(l);
+                        self.log.push(format!("crash: {} random bytes after the last frame of segment {} + Wal::open", l, cur));
+                        use std::io::Write;
+                        let mut f = std::fs::OpenOptions::new().append(true).open(&path).unwrap();
+                        f.write_all(&g).unwrap();
                         self.sh.garbage_tail_injected = true;
                         self.sh.slack.insert(cur);
                     }
-                } else if kind < 9 {
-                    let l = *self.rng.pick(&[1usize, 31, 32, 33, 5000, FRAME - 1, FRAME, FRAME + 100]);
-                    let g = self.rng.bytes(l);
-                    self.log.push(format!("crash: {} random bytes after the last frame of segment {} + Wal::open", l, self.sh.cur));
-                    use std::io::Write;
-                    let mut f = std::fs::OpenOptions::new().append(true).open(&path).unwrap();
-                    f.write_all(&g).unwrap();
-                    self.sh.garbage_tail_injected = true;
-                    let cur = self.sh.cur;
-                    self.sh.slack.insert(cur);
-                } else {
-                    let l = *self.rng.pick(&[100usize, FRAME, 2 * FRAME + 5]);
-                    self.log.push(format!("crash: {} zero bytes after the last frame of segment {} + Wal::open", l, self.sh.cur));
-                    use std::io::Write;
-                    let mut f = std::fs::OpenOptions::new().append(true).open(&path).unwrap();
-                    f.write_all(&vec![0u8; l]).unwrap();
-                    if l >= FRAME {
-                        self.sh.zero_tail_injected = true;
-                    } else {
-                        self.sh.garbage_tail_injected = true;
-                        let cur = self.sh.cur;
-                        self.sh.slack.insert(cur);
+                    Torn::Zeros { len: l } => {
+                        self.log.push(format!("crash: {} zero bytes after the last frame of segment {} + Wal::open", l, cur));
+                        use std::io::Write;
+                        let mut f = std::fs::OpenOptions::new().append(true).open(&path).unwrap();
+                        f.write_all(&vec![0u8; l]).unwrap();
+                        if l >= FRAME {
+                            self.sh.zero_tail_injected = true;
+                        } else {
+                            self.sh.garbage_tail_injected = true;
+                            self.sh.slack.insert(cur);
+                        }
                     }
                 }
                 self.res.c("torn_reopen_steps", 1);
@@ -915,7 +1001,6 @@ impl Seq {
                     self.sh.reopen();
                 }
             }
-            _ => {}
         }
     }
 
@@ -1343,6 +1428,29 @@ impl Seq {
     }
 }
 
+enum Torn {
+    /// remove `back` bytes from the end of the current segment file
+    Cut { back: usize },
+    Garbage { len: usize, seed: u64 },
+    Zeros { len: usize },
+}
+
+enum Op {
+    Write { api: u8, fid: u64, page: u32, dbs: u32 },
+    Batch { nosync: bool, frames: Vec<(u64, u32, u32)> },
+    Undo { table: u32, txn: u32, page: u32, dbs: u32 },
+    Flush { fid: u64, pages: Vec<u32> },
+    Rotate,
+    Truncate,
+    Checkpoint { sync_first: bool },
+    DbCkpt,
+    Reopen,
+    Mode(u8),
+    Sync,
+    Observe,
+    Torn(Torn),
+}
+
 enum Mutn {
     Cut(usize),
     Patch(usize, Vec<u8>),
@@ -1413,7 +1521,8 @@ fn run_sequence(idx: u64, seed: u64, base: &Path, lane: u64, cor_num: u64, cor_d
         if s.stop {
             break;
         }
-        s.step();
+        let op = s.gen_op();
+        s.exec(op);
     }
     if !s.stop {
         // final: drop (flushes), reopen as a recovering process would, observe everything
@@ -1533,6 +1642,21 @@ pub fn run(a: &Args) -> i32 {
             w.write_frame_with_file_id((i % 8) as u32, 8, &image(i + 1), i % 4).unwrap();
         }
         drop(w);
+        {
+            let d2 = base.join("b2");
+            let w = Wal::create(&d2).unwrap();
+            let t = std::time::Instant::now();
+            for i in 0..50u64 {
+                w.write_frame_with_file_id((i % 8) as u32, 8, &image(i + 1), i % 4).unwrap();
+            }
+            println!("write_frame Full (fsync): {:.3} ms", t.elapsed().as_secs_f64() * 1000.0 / 50.0);
+            w.set_sync_mode(SyncMode::Normal);
+            let t = std::time::Instant::now();
+            for i in 0..50u64 {
+                w.write_frame_with_file_id((i % 8) as u32, 8, &image(i + 1), i % 4).unwrap();
+            }
+            println!("write_frame Normal: {:.3} ms", t.elapsed().as_secs_f64() * 1000.0 / 50.0);
+        }
         let bytes = std::fs::read(d.join("wal.000001")).unwrap();
         let n = 200;
         let mut brs = RecStore { path: base.join("r.tbd"), st: None };
